@@ -240,6 +240,48 @@ func (m *Model) ruleHLCSeed(r *Results, rule string) {
 		}
 	}
 	r.check(okDom, rule, key+" / before registration", m.instrPos(seed), "clock is seeded on every path before the bucket is registered", "the bucket can be registered (and used) before the clock has been raised to its persisted mark")
+	// the seeding method raises the clock to the value it is given, not to something smaller
+	// (stores may sit in a clock helper that is handed the value unchanged)
+	if sf := seed.Common().StaticCallee(); sf != nil && len(sf.Blocks) > 0 {
+		nStores, identity := 0, true
+		var visit func(f *ssa.Function, tracked *ssa.Parameter, depth int)
+		visit = func(f *ssa.Function, tracked *ssa.Parameter, depth int) {
+			for _, b := range f.Blocks {
+				for _, in := range b.Instrs {
+					switch x := in.(type) {
+					case *ssa.Store:
+						fa, ok := x.Addr.(*ssa.FieldAddr)
+						if !ok || !ownerIs(fa, a.ClockType) {
+							continue
+						}
+						if bt, ok := fieldOf(fa).Type().Underlying().(*types.Basic); !ok || bt.Kind() != types.Uint64 {
+							continue
+						}
+						nStores++
+						if stripConv(x.Val) != ssa.Value(tracked) {
+							identity = false
+						}
+					case ssa.CallInstruction:
+						callee := x.Common().StaticCallee()
+						if callee == nil || !m.inPkg(callee) || len(callee.Blocks) == 0 || depth >= 2 {
+							continue
+						}
+						for i, arg := range x.Common().Args {
+							if i < len(callee.Params) && stripConv(arg) == ssa.Value(tracked) {
+								visit(callee, callee.Params[i], depth+1)
+							}
+						}
+					}
+				}
+			}
+		}
+		for _, p := range sf.Params {
+			if bt, ok := p.Type().Underlying().(*types.Basic); ok && bt.Kind() == types.Uint64 {
+				visit(sf, p, 0)
+			}
+		}
+		r.check(nStores > 0 && identity, rule, key+" / raises to the persisted mark", m.pos(sf.Pos()), "the seeding method stores exactly the value it is given into the clock's high-water field", "the seeding method stores something other than the persisted mark it is given (e.g. a truncated value): the clock can restart below a CAS that was already handed out")
+	}
 	// argument provenance: result of a function whose only statement is SELECT lastCas FROM bucket
 	args := seed.Common().Args
 	var src ssa.Value
@@ -531,6 +573,7 @@ func (m *Model) ruleEVT45(r *Results) {
 	// The fan-out's extent includes package helpers it hands the shared event to.
 	nPush := 0
 	clean := true
+	filtered := false
 	visited := map[*ssa.Function]bool{}
 	var unit func(fn *ssa.Function, evParam *ssa.Parameter, ctxKeysOnly bool)
 	unit = func(fn *ssa.Function, evParam *ssa.Parameter, ctxKeysOnly bool) {
@@ -612,6 +655,20 @@ func (m *Model) ruleEVT45(r *Results) {
 			nPush++
 			arg := c.Common().Args[len(c.Common().Args)-1]
 			key := m.declName(a.FanoutFn) + " / push"
+			// the push may depend on whether the feed wants bodies and on the feed being there, not on
+			// fields of the event or other state of the feed: a registered feed is handed every event
+			for _, ct := range controllingConds(fn, c.Block()) {
+				cd := condOf(ct.If)
+				for _, o := range []ssa.Value{cd.X, cd.Y} {
+					if o == nil {
+						continue
+					}
+					if fname, ok := m.fieldInCond(o, 0); ok && fname != "KeysOnly" {
+						filtered = true
+						r.bad(rule, m.declName(a.FanoutFn)+" / every registered feed gets the event", m.instrPos(ct.If), "the fan-out delivers an event to a registered feed only under a condition on field %s: events can be withheld from a running feed", fname)
+					}
+				}
+			}
 			if shared(arg) {
 				// must not be on the keys-only branch
 				r.check(!onKeysOnly(c.Block()), rule, key+" shared", m.instrPos(c), "full event pushed to a feed that wants values", "a keys-only feed is given the full event (with its body)")
@@ -643,6 +700,9 @@ func (m *Model) ruleEVT45(r *Results) {
 	unit(fn, evParam, false)
 	if clean {
 		r.ok(rule, m.declName(fn)+" / shared event is read-only", m.pos(fn.Pos()), "no store through the shared *FeedEvent")
+	}
+	if !filtered {
+		r.ok(rule, m.declName(fn)+" / every registered feed gets the event", m.pos(fn.Pos()), "pushes are controlled only by the feed being present and its keys-only flag")
 	}
 	if nPush < 2 {
 		r.undecided(rule, m.declName(fn)+" / pushes", m.pos(fn.Pos()), "expected a push for keys-only feeds and one for ordinary feeds, found %d", nPush)
@@ -1290,4 +1350,36 @@ func (m *Model) freshBytes(v ssa.Value, depth int) (fresh, seen bool) {
 		return fresh && any, seen && any
 	}
 	return false, false
+}
+
+// fieldInCond: the value is computed from a struct field (other than through a call); returns the field's name.
+func (m *Model) fieldInCond(v ssa.Value, depth int) (string, bool) {
+	v = stripConv(v)
+	if depth > 6 {
+		return "", false
+	}
+	switch x := v.(type) {
+	case *ssa.UnOp:
+		if x.Op == token.MUL {
+			if fa, ok := x.X.(*ssa.FieldAddr); ok {
+				return fieldOf(fa).Name(), true
+			}
+			return "", false
+		}
+		return m.fieldInCond(x.X, depth+1)
+	case *ssa.Field:
+		return fieldOfField(x).Name(), true
+	case *ssa.BinOp:
+		if n, ok := m.fieldInCond(x.X, depth+1); ok {
+			return n, true
+		}
+		return m.fieldInCond(x.Y, depth+1)
+	case *ssa.Phi:
+		for _, e := range x.Edges {
+			if n, ok := m.fieldInCond(e, depth+1); ok {
+				return n, true
+			}
+		}
+	}
+	return "", false
 }
